@@ -461,3 +461,65 @@ Proof.
       rewrite <- app_assoc. cbn [app].
       rewrite <- app_assoc. cbn [app]. rewrite (join_entries_split a' z (y :: b')). reflexivity.
 Qed.
+
+(* ------------------------------------------------------------------ reading a constructor-built field *)
+Lemma filter_sepE es : Forall entryish es -> filter is_entry (sepE es) = es.
+Proof.
+  intros H. induction H as [|e r He Hr IH]; [reflexivity|].
+  cbn [sepE flat_map app filter]. change (is_entry t_comma) with false. change (is_entry t_space) with false.
+  cbn iota. rewrite (entryish_is_entry _ He). f_equal. exact IH.
+Qed.
+Lemma filter_join_entries es : Forall entryish es -> filter is_entry (join_entries 0 es) = es.
+Proof.
+  intros H. destruct H as [|e r He Hr]; [reflexivity|]. rewrite join_entries_0. cbn [filter].
+  rewrite (entryish_is_entry _ He). f_equal. now apply filter_sepE.
+Qed.
+Lemma filter_sepR rs : Forall relationish rs -> filter is_relation (sepR rs) = rs.
+Proof.
+  intros H. induction H as [|e r He Hr IH]; [reflexivity|].
+  cbn [sepR flat_map app filter]. change (is_relation t_pipe) with false. change (is_relation t_space) with false.
+  cbn iota. rewrite (relationish_is_relation _ He). f_equal. exact IH.
+Qed.
+Lemma filter_join_relations rs : Forall relationish rs -> filter is_relation (join_relations fixed 0 rs) = rs.
+Proof.
+  intros H. destruct H as [|e r He Hr]; [reflexivity|]. rewrite join_relations_0. cbn [filter].
+  rewrite (relationish_is_relation _ He). f_equal. now apply filter_sepR.
+Qed.
+
+Lemma Forall_entryish_map f : Forall entryish (map centry_tree f).
+Proof. apply Forall_forall. intros x Hx. apply in_map_iff in Hx. destruct Hx as (y & <- & _). apply centry_entryish. Qed.
+Lemma Forall_relationish_map e : Forall relationish (map crel_tree e).
+Proof. apply Forall_forall. intros x Hx. apply in_map_iff in Hx. destruct Hx as (y & <- & _). apply crel_relationish. Qed.
+
+Lemma entries_cfield f : entries (cfield_tree f) = map centry_tree f.
+Proof. unfold entries, cfield_tree, relations_from_entries. cbn [children]. apply filter_join_entries, Forall_entryish_map. Qed.
+Lemma relations_centry e : relations (centry_tree e) = map crel_tree e.
+Proof. unfold relations, centry_tree, entry_from_relations. cbn [children]. apply filter_join_relations, Forall_relationish_map. Qed.
+
+Lemma relrec_of_crel r : plain r = true -> relrec_of (crel_tree r) = Ok r.
+Proof.
+  unfold plain. destruct r as [n q v [ar|] [|g pr]]; cbn [rr_archs rr_profs]; try discriminate. intros _.
+  destruct q as [q|]; destruct v as [[[] ver]|]; reflexivity.
+Qed.
+
+Lemma mapM_map_ok {A B} (f : A -> res B) (g : B -> A) l :
+  (forall x, In x l -> f (g x) = Ok x) -> mapM f (map g l) = Ok l.
+Proof.
+  induction l as [|x r IH]; intros H; [reflexivity|]. cbn [map mapM].
+  rewrite (H x (or_introl eq_refl)). rewrite IH by (intros y Hy; apply H; now right). reflexivity.
+Qed.
+
+Lemma structure_cfield f : plain_field f = true -> structure (cfield_tree f) = Ok f.
+Proof.
+  intros H. unfold structure. rewrite entries_cfield. apply mapM_map_ok. intros e He.
+  rewrite relations_centry. apply mapM_map_ok. intros r Hr. apply relrec_of_crel.
+  unfold plain_field in H. rewrite forallb_forall in H. specialize (H e He).
+  unfold plain_entry in H. rewrite forallb_forall in H. now apply H.
+Qed.
+
+Lemma map_l_replace {A B} (g : A -> B) i x l : map g (l_replace i x l) = l_replace i (g x) (map g l).
+Proof. unfold l_replace. rewrite map_app. cbn [map]. now rewrite firstn_map, skipn_map. Qed.
+Lemma map_l_insert {A B} (g : A -> B) i x l : map g (l_insert i x l) = l_insert i (g x) (map g l).
+Proof. unfold l_insert. rewrite map_app. cbn [map]. now rewrite firstn_map, skipn_map. Qed.
+Lemma map_l_remove {A B} (g : A -> B) i l : map g (l_remove i l) = l_remove i (map g l).
+Proof. unfold l_remove. rewrite map_app. now rewrite firstn_map, skipn_map. Qed.
